@@ -1,4 +1,321 @@
-import SafeC.Models.Copy
-/-! Property theorems for C12 (see DESIGN.md §4). -/
+import SafeC.Proofs.Interleave
+import SafeC.Proofs.CopyDisjoint
+/-!
+# C12 — reentrancy: no hidden shared state, calls on thread-private data commute
+
+The library functions are modelled as `Prog`s: a `Prog` has no state of its own, everything it
+reads or writes is a cell of the one shared memory `St.data`.  Two calls are run as two threads whose
+atomic steps (one load, one store, one handler event) are interleaved by an ARBITRARY schedule
+(`runSched`, a `List Bool`).  The schedule-independent argument is
+
+* `reentrant` (= `interleave_disjoint`): if the cells touched by the two calls are disjoint, every
+  schedule that lets both finish gives each call the return value and the memory contents it has
+  when it runs alone;
+* the footprint hypothesis is not assumed for the library functions, it is DERIVED from the
+  guarded semantics: the C02 theorems (`strcpyG_disjoint`, …) show that a call with valid operands
+  neither faults nor records a stray access when ONLY its operands are mapped/readable/writable;
+  `within_of_clean` turns that into "`Within operands`" (`strcpy_s_alone`, `strcpy_s_reentrant`).
+
+`shared_scratch_witness` / `private_scratch_ok` show that the theorem is not vacuous in the other
+direction: the scheme the old `qsort_s` used (elements rotated through ONE static scratch object
+shared by all threads) violates the conclusion under a concrete schedule, the same code with a
+scratch cell per thread satisfies it under every schedule.
+-/
 namespace SafeC.Props.C12
+open SafeC Gen
+
+/-! ## 1. the schedule-independent argument -/
+
+/-- **C12, generic form.**  Any two calls `pa`, `pb` whose footprints `FA`, `FB` (every cell the
+run reads or writes, `Within`) are disjoint, under ANY interleaving `sch` of their atomic steps that
+lets both finish: the return values are those of the calls run alone, every cell of `FA` (`FB`)
+ends up as `pa` (`pb`) alone leaves it, every other cell is untouched. -/
+theorem reentrant {α β : Type} {FA FB : Nat → Prop} (hdisj : ∀ a, FA a → FB a → False)
+    (sch : List Bool) (pa : Prog α) (pb : Prog β) (s : St)
+    (ha : Within FA pa s) (hb : Within FB pb s)
+    (hfin : done (runSched sch pa pb s).1 = true ∧ done (runSched sch pa pb s).2.1 = true) :
+    ∃ ra rb, (runSched sch pa pb s).1 = .ret ra ∧ (runSched sch pa pb s).2.1 = .ret rb ∧
+      ra = (runT pa s).1 ∧ rb = (runT pb s).1 ∧
+      (∀ a, FA a → (runSched sch pa pb s).2.2.data a = (runT pa s).2.data a) ∧
+      (∀ a, FB a → (runSched sch pa pb s).2.2.data a = (runT pb s).2.data a) ∧
+      (∀ a, ¬ FA a → ¬ FB a → (runSched sch pa pb s).2.2.data a = s.data a) :=
+  interleave_disjoint hdisj sch pa pb s ha hb hfin
+
+/-! ## 2. `strcpy_s` on thread-private data -/
+
+/-- the cells one `strcpy_s(dest, dmax, src)` call is entitled to: dest's `dmax` cells and the
+source string of length `n` including its terminator -/
+def Cells (dest dmax src n : Nat) (a : Nat) : Prop :=
+  (dest ≤ a ∧ a < dest + dmax) ∨ (src ≤ a ∧ a ≤ src + n)
+
+instance (dest dmax src n : Nat) : DecidablePred (Cells dest dmax src n) := fun a => by
+  unfold Cells; exact inferInstance
+
+/-- a NUL-terminated string of length `n` at `s` — the `data` half of `SrcStr`; nothing is said
+about permissions, which the shared initial state of two threads cannot have "per thread" -/
+structure IsStr (st : St) (s n : Nat) : Prop where
+  nz : ∀ j, j < n → st.data (s+j) ≠ 0
+  nul : st.data (s+n) = 0
+
+/-- `st` as ONE thread is entitled to see it: mapped = readable = writable = exactly `D`.
+`exec` depends on these three fields only through fault/stray recording; `runT`, `Within`, `step`
+do not look at them (`runT_data_congr`, `within_data_congr`). -/
+def priv (st : St) (D : Nat → Bool) : St := { st with mapped := D, rd := D, wr := D }
+
+@[simp] theorem priv_data (st : St) (D : Nat → Bool) : (priv st D).data = st.data := rfl
+
+/-- return code and dest contents of a `strcpy_s` call with valid, non-overlapping operands, as a
+predicate on a code and a memory `data'` (it mentions `data'` at dest cells only) -/
+def Post (cfg : Cfg) (dest dmax src n : Nat) (st : St) (code : Nat) (data' : Nat → Nat) : Prop :=
+  (n < dmax → code = EOK ∧ (∀ i, i < n → data' (dest+i) = st.data (src+i)) ∧ data' (dest+n) = 0 ∧
+    (cfg.slack = true → ∀ i, n ≤ i → i < dmax → data' (dest+i) = 0)) ∧
+  (dmax ≤ n → code = ESNOSPC ∧ data' dest = 0 ∧
+    (cfg.slack = true → ∀ i, i < dmax → data' (dest+i) = 0))
+
+theorem Post.congr {cfg : Cfg} {dest dmax src n : Nat} {st : St} {code : Nat} {d1 d2 : Nat → Nat}
+    (h : Post cfg dest dmax src n st code d1) (hpos : 0 < dmax)
+    (he : ∀ a, dest ≤ a → a < dest + dmax → d2 a = d1 a) :
+    Post cfg dest dmax src n st code d2 := by
+  obtain ⟨h1, h2⟩ := h
+  refine ⟨?_, ?_⟩
+  · intro hn
+    obtain ⟨c1, c2, c3, c4⟩ := h1 hn
+    refine ⟨c1, ?_, ?_, ?_⟩
+    · intro i hi; rw [he _ (by omega) (by omega)]; exact c2 i hi
+    · rw [he _ (by omega) (by omega)]; exact c3
+    · intro hs i hi1 hi2; rw [he _ (by omega) (by omega)]; exact c4 hs i hi1 hi2
+  · intro hn
+    obtain ⟨c1, c2, c3⟩ := h2 hn
+    refine ⟨c1, ?_, ?_⟩
+    · rw [he _ (by omega) (by omega)]; exact c2
+    · intro hs i hi; rw [he _ (by omega) (by omega)]; exact c3 hs i hi
+
+/-- **one call, alone.**  With valid non-overlapping operands the total run of `strcpy_s` from `st`
+touches only its own cells, and returns / leaves in dest what `strcpyG_disjoint` says.
+Derivation: run the guarded semantics from `priv st Cells` (nothing but the operands is even
+mapped); `strcpyG_disjoint` gives "no fault, no stray"; `within_of_clean` turns that into the
+footprint; `exec_eq_runT` identifies guarded and total run; the permission fields are then
+forgotten (`within_data_congr`, `runT_data_congr`). -/
+theorem strcpy_s_alone (cfg : Cfg) (dest dmax src n : Nat) (st : St)
+    (hd : dest ≠ 0) (hs : src ≠ 0) (hpos : 0 < dmax) (hle : dmax ≤ RSIZE_MAX_STR)
+    (hstr : IsStr st src n) (hdisj : Disjoint dest dmax src n) :
+    Within (Cells dest dmax src n) (strcpy_s cfg dest dmax src none) st ∧
+    Post cfg dest dmax src n st (runT (strcpy_s cfg dest dmax src none) st).1
+      (runT (strcpy_s cfg dest dmax src none) st).2.data := by
+  let D : Nat → Bool := fun a => decide (Cells dest dmax src n a)
+  have hD : ∀ a, D a = true ↔ Cells dest dmax src n a := fun a => by simp [D]
+  have hrw : RW (priv st D) dest dmax := by
+    intro i hi
+    have : D (dest + i) = true := (hD _).2 (Or.inl ⟨by omega, by omega⟩)
+    exact ⟨this, this, this⟩
+  have hsrc : SrcStr (priv st D) src n := by
+    refine ⟨hstr.nz, hstr.nul, ?_⟩
+    intro j hj
+    have : D (src + j) = true := (hD _).2 (Or.inr ⟨by omega, by omega⟩)
+    exact ⟨this, this⟩
+  obtain ⟨code, st', he, _, _, _, hstray, _, pok, pfail⟩ :=
+    strcpyG_disjoint RSIZE_MAX_STR cfg dest dmax src n (priv st D) hd hs hpos hle hrw hsrc hdisj
+  have he' : exec (strcpy_s cfg dest dmax src none) (priv st D) = .ok (code, st') := he
+  have hw := within_of_clean _ _ he' hstray
+  obtain ⟨e1, e2⟩ := exec_eq_runT _ _ he' hstray
+  obtain ⟨g1, g2⟩ := runT_data_congr (strcpy_s cfg dest dmax src none) (priv st D) st rfl
+  refine ⟨?_, ?_⟩
+  · apply within_data_congr _ (priv st D) st rfl
+    refine within_mono ?_ _ _ hw
+    intro a h
+    have : D a = true := by rcases h with h | h <;> exact h
+    exact (hD a).1 this
+  · rw [← g1, ← g2, e1, e2]
+    refine ⟨?_, ?_⟩
+    · intro hn
+      obtain ⟨c1, _, c3, c4, c5⟩ := pok hn
+      exact ⟨c1, c3, c4, c5⟩
+    · intro hn
+      obtain ⟨c1, _, c3, c4⟩ := pfail hn
+      exact ⟨c1, c3, c4⟩
+
+/-- **C12 for `strcpy_s`.**  Two calls `strcpy_s(d1, m1, s1)` ∥ `strcpy_s(d2, m2, s2)` (object sizes
+unknown to the library) started in ONE shared memory `st`.  Each call has valid, non-overlapping
+operands exactly as in `strcpyG_disjoint`/C02 (`d ≠ 0`, `s ≠ 0`, `0 < m ≤ RSIZE_MAX_STR`, a string of
+length `n` at `s`, `Disjoint d m s n`), and the data is thread-private: the operand cells
+`Cells d1 m1 s1 n1` and `Cells d2 m2 s2 n2` have no cell in common (`hpriv`).  Then for EVERY
+schedule `sch` that lets both calls finish:
+
+* both threads have returned, with the codes `c1`, `c2` the calls return when run alone from `st`;
+* every operand cell of call 1 — in particular all of `dest_1` — holds exactly what call 1 leaves
+  there when run alone, likewise for call 2;
+* every other cell of the memory is untouched.
+
+Formulation.  "Run alone" is the total run `runT … st` from the SAME shared initial state: a shared
+state cannot carry "thread 1 may only touch `Cells 1`" and "thread 2 may only touch `Cells 2`" in its
+single set of permission fields, so no hypothesis at all is made about `st.mapped/rd/wr` (hence
+`IsStr`, the `data` half of `SrcStr`).  The permission-based theorem enters in the proof
+(`strcpy_s_alone`): the guarded run of each call from `priv st Cells_i` — only its own operands
+mapped — neither faults nor strays, which yields `Within Cells_i` for the total run and identifies
+the two runs.  `strcpy_s_reentrant_post` below spells "what each call leaves" out as the concrete
+code and dest contents. -/
+theorem strcpy_s_reentrant (cfg : Cfg) (d1 m1 s1 n1 d2 m2 s2 n2 : Nat) (st : St)
+    (hd1 : d1 ≠ 0) (hs1 : s1 ≠ 0) (hpos1 : 0 < m1) (hle1 : m1 ≤ RSIZE_MAX_STR)
+    (hstr1 : IsStr st s1 n1) (hdisj1 : Disjoint d1 m1 s1 n1)
+    (hd2 : d2 ≠ 0) (hs2 : s2 ≠ 0) (hpos2 : 0 < m2) (hle2 : m2 ≤ RSIZE_MAX_STR)
+    (hstr2 : IsStr st s2 n2) (hdisj2 : Disjoint d2 m2 s2 n2)
+    (hpriv : ∀ a, Cells d1 m1 s1 n1 a → Cells d2 m2 s2 n2 a → False)
+    (sch : List Bool)
+    (hfin :
+      done (runSched sch (strcpy_s cfg d1 m1 s1 none) (strcpy_s cfg d2 m2 s2 none) st).1 = true ∧
+      done (runSched sch (strcpy_s cfg d1 m1 s1 none) (strcpy_s cfg d2 m2 s2 none) st).2.1 = true) :
+    ∃ c1 c2,
+      (runSched sch (strcpy_s cfg d1 m1 s1 none) (strcpy_s cfg d2 m2 s2 none) st).1 = .ret c1 ∧
+      (runSched sch (strcpy_s cfg d1 m1 s1 none) (strcpy_s cfg d2 m2 s2 none) st).2.1 = .ret c2 ∧
+      c1 = (runT (strcpy_s cfg d1 m1 s1 none) st).1 ∧
+      c2 = (runT (strcpy_s cfg d2 m2 s2 none) st).1 ∧
+      (∀ a, Cells d1 m1 s1 n1 a →
+        (runSched sch (strcpy_s cfg d1 m1 s1 none) (strcpy_s cfg d2 m2 s2 none) st).2.2.data a =
+          (runT (strcpy_s cfg d1 m1 s1 none) st).2.data a) ∧
+      (∀ a, Cells d2 m2 s2 n2 a →
+        (runSched sch (strcpy_s cfg d1 m1 s1 none) (strcpy_s cfg d2 m2 s2 none) st).2.2.data a =
+          (runT (strcpy_s cfg d2 m2 s2 none) st).2.data a) ∧
+      (∀ a, ¬ Cells d1 m1 s1 n1 a → ¬ Cells d2 m2 s2 n2 a →
+        (runSched sch (strcpy_s cfg d1 m1 s1 none) (strcpy_s cfg d2 m2 s2 none) st).2.2.data a =
+          st.data a) :=
+  interleave_disjoint hpriv sch _ _ st
+    (strcpy_s_alone cfg d1 m1 s1 n1 st hd1 hs1 hpos1 hle1 hstr1 hdisj1).1
+    (strcpy_s_alone cfg d2 m2 s2 n2 st hd2 hs2 hpos2 hle2 hstr2 hdisj2).1 hfin
+
+/-- the same, with "what each call leaves when run alone" spelled out: under every finishing
+schedule each call returns `EOK` and `dest_i` holds the copy of its own source string (NUL
+terminated, zero-filled with null-slack) if it fits, and `ESNOSPC` with a cleared dest otherwise —
+whatever the other thread did in between -/
+theorem strcpy_s_reentrant_post (cfg : Cfg) (d1 m1 s1 n1 d2 m2 s2 n2 : Nat) (st : St)
+    (hd1 : d1 ≠ 0) (hs1 : s1 ≠ 0) (hpos1 : 0 < m1) (hle1 : m1 ≤ RSIZE_MAX_STR)
+    (hstr1 : IsStr st s1 n1) (hdisj1 : Disjoint d1 m1 s1 n1)
+    (hd2 : d2 ≠ 0) (hs2 : s2 ≠ 0) (hpos2 : 0 < m2) (hle2 : m2 ≤ RSIZE_MAX_STR)
+    (hstr2 : IsStr st s2 n2) (hdisj2 : Disjoint d2 m2 s2 n2)
+    (hpriv : ∀ a, Cells d1 m1 s1 n1 a → Cells d2 m2 s2 n2 a → False)
+    (sch : List Bool)
+    (hfin :
+      done (runSched sch (strcpy_s cfg d1 m1 s1 none) (strcpy_s cfg d2 m2 s2 none) st).1 = true ∧
+      done (runSched sch (strcpy_s cfg d1 m1 s1 none) (strcpy_s cfg d2 m2 s2 none) st).2.1 = true) :
+    ∃ c1 c2,
+      (runSched sch (strcpy_s cfg d1 m1 s1 none) (strcpy_s cfg d2 m2 s2 none) st).1 = .ret c1 ∧
+      (runSched sch (strcpy_s cfg d1 m1 s1 none) (strcpy_s cfg d2 m2 s2 none) st).2.1 = .ret c2 ∧
+      Post cfg d1 m1 s1 n1 st c1
+        (runSched sch (strcpy_s cfg d1 m1 s1 none) (strcpy_s cfg d2 m2 s2 none) st).2.2.data ∧
+      Post cfg d2 m2 s2 n2 st c2
+        (runSched sch (strcpy_s cfg d1 m1 s1 none) (strcpy_s cfg d2 m2 s2 none) st).2.2.data := by
+  obtain ⟨c1, c2, e1, e2, e3, e4, e5, e6, _⟩ :=
+    strcpy_s_reentrant cfg d1 m1 s1 n1 d2 m2 s2 n2 st hd1 hs1 hpos1 hle1 hstr1 hdisj1
+      hd2 hs2 hpos2 hle2 hstr2 hdisj2 hpriv sch hfin
+  refine ⟨c1, c2, e1, e2, ?_, ?_⟩
+  · rw [e3]
+    exact (strcpy_s_alone cfg d1 m1 s1 n1 st hd1 hs1 hpos1 hle1 hstr1 hdisj1).2.congr hpos1
+      (fun a h1 h2 => e5 a (Or.inl ⟨h1, h2⟩))
+  · rw [e4]
+    exact (strcpy_s_alone cfg d2 m2 s2 n2 st hd2 hs2 hpos2 hle2 hstr2 hdisj2).2.congr hpos2
+      (fun a h1 h2 => e6 a (Or.inl ⟨h1, h2⟩))
+
+/-! ## 3. the defect class: one static scratch object shared by all threads -/
+
+/-- exchange cells `a` and `b` through the scratch cell `tmp` (the old `qsort_s` rotated elements
+through one `static` buffer: `tmp` was the same cell for every thread) -/
+def swapVia (tmp a b : Nat) : Prog Unit := do
+  let x ← load a
+  store tmp x
+  let y ← load b
+  store a y
+  let z ← load tmp
+  store b z
+
+/-- a concrete memory: cell `a` holds the value `a` -/
+def mem0 : St :=
+  { data := fun a => a, mapped := fun _ => true, rd := fun _ => true, wr := fun _ => true }
+
+/-- A saves its element in the scratch cell; B overwrites the scratch cell; A restores from it -/
+def badSched : List Bool :=
+  [true, true, false, false, true, true, true, true, false, false, false, false]
+
+/-- **shared scratch breaks reentrancy.**  Thread A swaps cells 10, 11, thread B swaps cells 20, 21
+(disjoint data), both through the SAME scratch cell 0.  Alone, A leaves 11, 10 in cells 10, 11.
+Under `badSched` both threads run to completion, but A's cell 11 receives B's element 20: the value
+10 that A was moving is lost. -/
+theorem shared_scratch_witness :
+    ∃ sch : List Bool,
+      done (runSched sch (swapVia 0 10 11) (swapVia 0 20 21) mem0).1 = true ∧
+      done (runSched sch (swapVia 0 10 11) (swapVia 0 20 21) mem0).2.1 = true ∧
+      (runT (swapVia 0 10 11) mem0).2.data 10 = 11 ∧
+      (runT (swapVia 0 10 11) mem0).2.data 11 = 10 ∧
+      (runSched sch (swapVia 0 10 11) (swapVia 0 20 21) mem0).2.2.data 10 = 11 ∧
+      (runSched sch (swapVia 0 10 11) (swapVia 0 20 21) mem0).2.2.data 11 = 20 ∧
+      (runSched sch (swapVia 0 10 11) (swapVia 0 20 21) mem0).2.2.data 11 ≠
+        (runT (swapVia 0 10 11) mem0).2.data 11 :=
+  ⟨badSched, by decide⟩
+
+/-- footprint of `swapVia` -/
+theorem swapVia_within (tmp a b : Nat) (s : St) :
+    Within (fun x => x = tmp ∨ x = a ∨ x = b) (swapVia tmp a b) s := by
+  simp [swapVia, load, store, bind, Prog.bind, Within]
+
+/-- `swapVia` alone exchanges the two cells (scratch distinct from both) -/
+theorem swapVia_runT (tmp a b : Nat) (s : St) (h1 : tmp ≠ a) (h2 : tmp ≠ b) :
+    (runT (swapVia tmp a b) s).2.data a = s.data b ∧
+    (runT (swapVia tmp a b) s).2.data b = s.data a := by
+  have h2' : b ≠ tmp := fun h => h2 h.symm
+  simp only [swapVia, load, store, bind, Prog.bind, runT, St.upd_data, h1, h2', if_true, if_false]
+  constructor
+  · split
+    · next h => rw [h]
+    · rfl
+  · trivial
+
+/-- **private scratch restores it.**  The same two swaps with a scratch cell per thread, from ANY
+memory, under EVERY schedule that lets both finish: both swaps happen. -/
+theorem private_scratch_ok (s : St) (sch : List Bool)
+    (hfin : done (runSched sch (swapVia 1 10 11) (swapVia 2 20 21) s).1 = true ∧
+            done (runSched sch (swapVia 1 10 11) (swapVia 2 20 21) s).2.1 = true) :
+    (runSched sch (swapVia 1 10 11) (swapVia 2 20 21) s).2.2.data 10 = s.data 11 ∧
+    (runSched sch (swapVia 1 10 11) (swapVia 2 20 21) s).2.2.data 11 = s.data 10 ∧
+    (runSched sch (swapVia 1 10 11) (swapVia 2 20 21) s).2.2.data 20 = s.data 21 ∧
+    (runSched sch (swapVia 1 10 11) (swapVia 2 20 21) s).2.2.data 21 = s.data 20 := by
+  obtain ⟨_, _, _, _, _, _, e5, e6, _⟩ :=
+    interleave_disjoint (FA := fun x => x = 1 ∨ x = 10 ∨ x = 11) (FB := fun x => x = 2 ∨ x = 20 ∨ x = 21)
+      (by intro a h1 h2; omega) sch _ _ s (swapVia_within 1 10 11 s) (swapVia_within 2 20 21 s) hfin
+  have hA := swapVia_runT 1 10 11 s (by decide) (by decide)
+  have hB := swapVia_runT 2 20 21 s (by decide) (by decide)
+  refine ⟨?_, ?_, ?_, ?_⟩
+  · rw [e5 10 (by simp)]; exact hA.1
+  · rw [e5 11 (by simp)]; exact hA.2
+  · rw [e6 20 (by simp)]; exact hB.1
+  · rw [e6 21 (by simp)]; exact hB.2
+
+/-! ## 4. non-vacuity of the hypotheses of `strcpy_s_reentrant` -/
+
+/-- thread 1 copies "ab" (cells 200..202) into an 8-cell dest at 100; thread 2 copies "xyz" + NUL
+(cells 400..403) into a 2-cell dest at 300 (too small: ESNOSPC) -/
+def mem1 : St :=
+  { data := fun a => if a = 200 ∨ a = 201 ∨ a = 400 ∨ a = 401 ∨ a = 402 then 65 else 0,
+    mapped := fun _ => false, rd := fun _ => false, wr := fun _ => false }
+
+example (cfg : Cfg) (sch : List Bool)
+    (hfin :
+      done (runSched sch (strcpy_s cfg 100 8 200 none) (strcpy_s cfg 300 2 400 none) mem1).1 = true ∧
+      done (runSched sch (strcpy_s cfg 100 8 200 none) (strcpy_s cfg 300 2 400 none) mem1).2.1 = true) :
+    ∃ c1 c2,
+      (runSched sch (strcpy_s cfg 100 8 200 none) (strcpy_s cfg 300 2 400 none) mem1).1 = .ret c1 ∧
+      (runSched sch (strcpy_s cfg 100 8 200 none) (strcpy_s cfg 300 2 400 none) mem1).2.1 = .ret c2 ∧
+      Post cfg 100 8 200 2 mem1 c1
+        (runSched sch (strcpy_s cfg 100 8 200 none) (strcpy_s cfg 300 2 400 none) mem1).2.2.data ∧
+      Post cfg 300 2 400 3 mem1 c2
+        (runSched sch (strcpy_s cfg 100 8 200 none) (strcpy_s cfg 300 2 400 none) mem1).2.2.data :=
+  strcpy_s_reentrant_post cfg 100 8 200 2 300 2 400 3 mem1
+    (by decide) (by decide) (by decide) (by decide)
+    ⟨by intro j hj; have : j = 0 ∨ j = 1 := by omega
+        rcases this with rfl | rfl <;> simp [mem1], by simp [mem1]⟩
+    (Or.inl (by decide))
+    (by decide) (by decide) (by decide) (by decide)
+    ⟨by intro j hj; have : j = 0 ∨ j = 1 ∨ j = 2 := by omega
+        rcases this with rfl | rfl | rfl <;> simp [mem1], by simp [mem1]⟩
+    (Or.inl (by decide))
+    (by intro a h1 h2; unfold Cells at h1 h2; omega)
+    sch hfin
+
 end SafeC.Props.C12
